@@ -18,6 +18,22 @@ def genPieces : Aegean.Model.C20.Pieces :=
     secRhi := Gen.C20.secRhi, secClo := Gen.C20.secClo, secChi := Gen.C20.secChi,
     cmpRlo := Gen.C20.cmpRlo, cmpRhi := Gen.C20.cmpRhi, cmpClo := Gen.C20.cmpClo, cmpChi := Gen.C20.cmpChi }
 
+def genFilePieces : Aegean.Model.C20.FilePieces :=
+  { extHeader := Gen.C20.extHeader, extData := Gen.C20.extData, extCmp := Gen.C20.extCmp, scaled := Gen.C20.scaled }
+
+/-- HDU descriptions: 7 numbers each (naxis n4 n3 rows cols crpix2 bscale; bscale 0 = no card) -/
+def hdus (k : Nat) : List Int → Option (List Aegean.Model.C20.FHdu)
+  | [] => some []
+  | naxis :: n4 :: n3 :: rows :: cols :: crpix2 :: bs :: rest =>
+    let (n4, n3, rows, cols) := (n4.toNat, n3.toNat, rows.toNat, cols.toNat)
+    let data := (List.range n4).map fun a => (List.range n3).map fun b => (List.range rows).map fun r =>
+      (List.range cols).map fun c => k * 1000000 + ((a * n3 + b) * rows + r) * cols + c
+    match hdus (k + 1) rest with
+    | none => none
+    | some l => some ({ img := { naxis := naxis.toNat, naxis1 := cols, naxis2 := rows, crpix2 := crpix2, data := data },
+                        bscale := if bs = 0 then none else some bs.toNat, compressed := false } :: l)
+  | _ => none
+
 def handle (ws : List String) : String :=
   match ws with
   | ["bounds", rows, n, i] =>
@@ -47,6 +63,19 @@ def handle (ws : List String) : String :=
       | .error .shape => "err shape"
       | .ok b => s!"ok {b.naxis2} {b.crpix2} {";".intercalate (b.data.map showNats)}"
     | _, _, _, _, _, _, _, _, _, _ => "bad-op"
+  | "fullfile" :: hdu :: cube :: i :: n :: rest =>
+    match hdu.toNat?, cube.toNat?, i.toInt?, n.toInt?, rest.mapM String.toInt? with
+    | some hdu, some cube, some i, some n, some nums =>
+      match hdus 0 nums with
+      | none => "bad-op"
+      | some file =>
+        match Aegean.Model.C20.loadFullFile genPieces genFilePieces file [] hdu cube i n with
+        | .error (.guard k) => s!"err guard {k}"
+        | .error .tooManyAxes => "err tooManyAxes"
+        | .error .index => "err index"
+        | .error .shape => "err shape"
+        | .ok b => s!"ok {b.naxis2} {b.crpix2} {";".intercalate (b.data.map showNats)}"
+    | _, _, _, _, _ => "bad-op"
   | "spec" :: rows :: rest =>
     match rows.toNat?, rest.mapM String.toNat? with
     | some rows, some l =>
